@@ -13,6 +13,7 @@ import (
 	"errors"
 	"flag"
 	"fmt"
+	"io"
 	"os"
 	"reflect"
 	"runtime/pprof"
@@ -32,6 +33,12 @@ type Cfg struct {
 	Wrap    string    `json:"wrap"` // ok absent failing
 	EncFail []int     `json:"encfail,omitempty"`
 	Ign     bool      `json:"ign,omitempty"` // Filter.IgnoreTypes = {*Ign}
+	// the context handed to Process: "" Background, cancelled, deadline (in the past), custom (a type that is not from the context
+	// package, done), cause (cancelled with a cause of its own), inflight (cancelled by the first Tags() callback of the payload).
+	// The AEAD wrapper ignores it; the failing wrapper answers a dead context with the context's error at every Encrypt call.
+	Ctx     string `json:"ctx,omitempty"`
+	ErrK    int    `json:"errk,omitempty"`    // which kind of error value the failing wrapper returns first (the kinds rotate per call)
+	EmptyOv bool   `json:"emptyov,omitempty"` // FilterOperationOverrides is an empty non-nil map where there are no overrides
 }
 type Case struct {
 	ID  int    `json:"id"`
@@ -52,6 +59,8 @@ type HistStep struct {
 	Rot int    `json:"rot,omitempty"`
 	PK  string `json:"pk"`
 	V   *V     `json:"v,omitempty"`
+	// the very payload OBJECT of the previous event is sent again (the filter works on a copy: the same result is due)
+	Again bool `json:"again,omitempty"`
 }
 
 var histKeys = map[int]string{1: "k1", 3: "k3", 4: "k4"}
@@ -61,10 +70,18 @@ type hstate struct {
 	keyName    string
 	keyID      int
 	salt, info []byte
+	lastPV     interface{} // the payload object of the previous event of the history
+	again      bool
 }
 
 // a rotation payload of kind all / salt / info / wrapper / empty: only the named components are non-nil
 func rotPayload(kind string, n int) (*Rot, int) {
+	if kind == "typednil" {
+		return nil, 0 // a typed nil pointer in the payload interface: a rotation payload that rotates nothing
+	}
+	if kind == "byvalue" {
+		kind = "all" // the same components in a RotV handed over by value (rotPayloadValue)
+	}
 	r := &Rot{}
 	w := 0
 	if kind == "all" || kind == "wrapper" {
@@ -78,6 +95,15 @@ func rotPayload(kind string, n int) (*Rot, int) {
 		r.Info = []byte(fmt.Sprintf("rinfo-%d", n))
 	}
 	return r, w
+}
+
+// the payload object of a rotation: *Rot, a typed nil *Rot, or a RotV by value (RotateWrapper through value receivers)
+func rotPayloadValue(kind string, n int) interface{} {
+	r, _ := rotPayload(kind, n)
+	if kind == "byvalue" {
+		return RotV{W: r.W, Salt: r.Salt, Info: r.Info}
+	}
+	return r
 }
 
 func allNone(c Cfg) bool {
@@ -99,13 +125,53 @@ func newAead(name string) *aead.Wrapper {
 
 // a wrapper whose Encrypt fails at chosen calls; NewDerivedReader rejects its type, so every HMAC fails
 type failW struct {
-	inner *aead.Wrapper
-	calls int
-	fail  map[int]bool
+	inner  *aead.Wrapper
+	calls  int
+	fail   map[int]bool
+	errK   int
+	keyid  bool  // KeyId fails (NewEventWrapper asks for it)
+	ctxHit []int // the calls answered with the context's error (the observed choice, handed to the model as its oracle's answer)
+}
+
+// the kinds of error values a dependency may return; the filter must fail closed on every one of them
+type timeoutErr struct{}
+
+func (timeoutErr) Error() string   { return "injected timeout" }
+func (timeoutErr) Timeout() bool   { return true }
+func (timeoutErr) Temporary() bool { return true }
+func (timeoutErr) Is(t error) bool { return t == context.DeadlineExceeded }
+
+type nilErr struct{}
+
+func (e *nilErr) Error() string { return "injected typed-nil error" }
+
+var sharedErr = errors.New("injected wrapper failure (one value shared by all callers)")
+
+func errOfKind(k int) error {
+	switch k % 7 {
+	case 1:
+		return fmt.Errorf("wrapped: %w", io.ErrUnexpectedEOF)
+	case 2:
+		return context.DeadlineExceeded
+	case 3:
+		return timeoutErr{}
+	case 4:
+		return errors.Join(errors.New("first"), os.ErrClosed)
+	case 5:
+		return (*nilErr)(nil)
+	case 6:
+		return sharedErr
+	}
+	return errors.New("injected wrapper failure")
 }
 
 func (f *failW) Type(ctx context.Context) (wrapping.WrapperType, error) { return f.inner.Type(ctx) }
-func (f *failW) KeyId(ctx context.Context) (string, error)              { return f.inner.KeyId(ctx) }
+func (f *failW) KeyId(ctx context.Context) (string, error) {
+	if f.keyid {
+		return "", errOfKind(f.errK)
+	}
+	return f.inner.KeyId(ctx)
+}
 func (f *failW) SetConfig(ctx context.Context, o ...wrapping.Option) (*wrapping.WrapperConfig, error) {
 	return f.inner.SetConfig(ctx, o...)
 }
@@ -113,7 +179,11 @@ func (f *failW) Encrypt(ctx context.Context, pt []byte, o ...wrapping.Option) (*
 	i := f.calls
 	f.calls++
 	if f.fail[i] {
-		return nil, errors.New("injected wrapper failure")
+		return nil, errOfKind(f.errK + i)
+	}
+	if err := ctx.Err(); err != nil {
+		f.ctxHit = append(f.ctxHit, i)
+		return nil, err
 	}
 	return f.inner.Encrypt(ctx, pt, o...)
 }
@@ -141,6 +211,9 @@ var filterSalt, filterInfo = []byte("fsalt"), []byte("finfo")
 
 func setOverrides(f *encrypt.Filter, c Cfg) {
 	f.FilterOperationOverrides = nil
+	if c.EmptyOv {
+		f.FilterOperationOverrides = map[encrypt.DataClassification]encrypt.FilterOperation{}
+	}
 	classes := []encrypt.DataClassification{encrypt.PublicClassification, encrypt.SensitiveClassification, encrypt.SecretClassification}
 	for i, o := range c.Ov {
 		if o != "" {
@@ -162,8 +235,8 @@ func mkFilter(c Cfg) *encrypt.Filter {
 	switch c.Wrap {
 	case "ok":
 		f.Wrapper = newAead("k1")
-	case "failing":
-		fw := &failW{inner: newAead("k1"), fail: map[int]bool{}}
+	case "failing", "keyid":
+		fw := &failW{inner: newAead("k1"), fail: map[int]bool{}, errK: c.ErrK, keyid: c.Wrap == "keyid"}
 		for _, i := range c.EncFail {
 			fw.fail[i] = true
 		}
@@ -208,7 +281,9 @@ func collectCanaries(v *V, m map[string]int) {
 		}
 	}
 	for _, c := range v.Cs {
-		m[canary(c)] = c
+		if c != 0 { // 0 is the empty string: no canary
+			m[canary(c)] = c
+		}
 	}
 	for _, f := range v.Fields {
 		collectCanaries(f.V, m)
@@ -281,15 +356,76 @@ type result struct {
 
 var fixedTime = time.Unix(1700000000, 0).UTC()
 
+// a context that is not from the context package
+type ownCtx struct{ done chan struct{} }
+
+func (ownCtx) Deadline() (time.Time, bool)   { return time.Time{}, false }
+func (c ownCtx) Done() <-chan struct{}       { return c.done }
+func (ownCtx) Value(interface{}) interface{} { return nil }
+func (c ownCtx) Err() error {
+	select {
+	case <-c.done:
+		return context.Canceled
+	default:
+		return nil
+	}
+}
+
+// called by every Tags() of the harness's Taggables (a point in the middle of Process)
+var tagsHook func()
+
+func fireTagsHook() {
+	if h := tagsHook; h != nil {
+		tagsHook = nil
+		h()
+	}
+}
+
+func ctxOf(kind string) (context.Context, func()) {
+	switch kind {
+	case "cancelled":
+		c, cancel := context.WithCancel(context.Background())
+		cancel()
+		return c, func() {}
+	case "deadline":
+		c, cancel := context.WithDeadline(context.Background(), time.Unix(1, 0))
+		return c, cancel
+	case "custom":
+		d := make(chan struct{})
+		close(d)
+		return ownCtx{d}, func() {}
+	case "cause":
+		parent, cancel := context.WithCancelCause(context.Background())
+		cancel(errors.New("the caller's own cause"))
+		c, cancel2 := context.WithCancel(parent) // a child of the cancelled one
+		return c, cancel2
+	case "inflight":
+		c, cancel := context.WithCancel(context.Background())
+		tagsHook = cancel
+		return c, cancel
+	}
+	return context.Background(), func() {}
+}
+
 // a history: the events before c.Step run on the same filter first; the case proper is event c.Step
 func execCase(c Case) (res result) {
 	if len(c.Hist) == 0 {
-		return execOn(mkFilter(c.Cfg), &hstate{"k1", 1, filterSalt, filterInfo}, c, 0)
+		return execOn(mkFilter(c.Cfg), &hstate{keyName: "k1", keyID: 1, salt: filterSalt, info: filterInfo}, c, 0)
 	}
 	f := &encrypt.Filter{HmacSalt: filterSalt, HmacInfo: filterInfo, Wrapper: newAead("k1")}
-	hs := &hstate{"k1", 1, filterSalt, filterInfo}
+	hs := &hstate{keyName: "k1", keyID: 1, salt: filterSalt, info: filterInfo}
 	for i, h := range c.Hist {
 		setOverrides(f, h.Cfg)
+		// the rest of the exported surface between two events: IgnoreTypes as this step says (the histories hold no value of the
+		// ignored type: setting it changes nothing), Reopen and Type are identity steps
+		f.IgnoreTypes = nil
+		if h.Cfg.Ign {
+			f.IgnoreTypes = []reflect.Type{reflect.TypeOf(&Ign{})}
+		}
+		if f.Reopen() != nil || f.Type() != el.NodeTypeFilter {
+			panic("Reopen / Type")
+		}
+		hs.again = h.Again
 		if name, ok := histKeys[h.Rot]; ok {
 			f.Rotate(encrypt.WithWrapper(newAead(name)))
 			hs.keyName, hs.keyID = name, h.Rot
@@ -299,6 +435,9 @@ func execCase(c Case) (res result) {
 		if h.PK == "rotate" && !allNone(h.Cfg) && h.V != nil {
 			// what the model says a consumed rotation payload has done to the filter
 			rp, w := rotPayload(h.V.K, i)
+			if rp == nil {
+				rp = &Rot{}
+			}
 			if w != 0 {
 				hs.keyName, hs.keyID = histKeys[w], w
 			}
@@ -318,7 +457,8 @@ func execCase(c Case) (res result) {
 
 func execOn(f *encrypt.Filter, hs *hstate, c Case, n int) (res result) {
 	keyName, keyID := hs.keyName, hs.keyID
-	ctx := context.Background()
+	ctx, cancelCtx := ctxOf(c.Cfg.Ctx)
+	defer func() { cancelCtx(); tagsHook = nil }()
 	cl := &classifier{canaries: map[string]int{}}
 	var pv interface{}
 	ewi := "None"
@@ -329,11 +469,15 @@ func execOn(f *encrypt.Filter, hs *hstate, c Case, n int) (res result) {
 		if c.V != nil {
 			kind = c.V.K
 		}
-		pv, _ = rotPayload(kind, n)
+		pv = rotPayloadValue(kind, n)
 	default:
 		collectCanaries(c.V, cl.canaries)
 		collectInts(c.V, &cl.extra)
 		pv = valueOf(c.V).Interface()
+		if hs.again && hs.lastPV != nil {
+			pv = hs.lastPV
+		}
+		hs.lastPV = pv
 	}
 	cl.keys = []keyCand{{keyID, keyBytes(keyName)}}
 	for id, name := range histKeys {
@@ -450,11 +594,23 @@ func execOn(f *encrypt.Filter, hs *hstate, c Case, n int) (res result) {
 		unaliased = snap() == before
 	}
 	res.class = payloadClass(c.PK, c.V)
+	// what the model is told about the wrapper: a wrapper the per-event derivation cannot use (not an AEAD wrapper, or its KeyId
+	// fails) is no wrapper for a payload with wrapper info; the Encrypt calls that were answered with the context's error
+	// failed (the observed choice)
+	hasWrap := c.Cfg.Wrap != "absent"
+	if _, isEwi := pv.(encrypt.EventWrapperInfo); isEwi && (c.Cfg.Wrap == "failing" || c.Cfg.Wrap == "keyid") {
+		hasWrap = false
+	}
+	encFail := append([]int{}, c.Cfg.EncFail...)
+	if fw, ok := f.Wrapper.(*failW); ok {
+		encFail = append(encFail, fw.ctxHit...)
+		fw.ctxHit = nil
+	}
 	_, o0 := opOf(c.Cfg.Ov[0])
 	_, o1 := opOf(c.Cfg.Ov[1])
 	_, o2 := opOf(c.Cfg.Ov[2])
 	res.lit = fmt.Sprintf("{| e_id := %s; e_class := %s; e_ov := {| ov_public := %s; ov_sensitive := %s; ov_secret := %s |}; e_wrap := %s; e_key := %s; e_ekey := 2%%N; e_encfail := %s; e_hmacfail := %s;\n   e_payload := %s;\n   e_unchanged := %s; e_unaliased := %s; e_snaponly := %s; e_obs := %s |}",
-		hc.N(c.ID), hc.N(res.class), o0, o1, o2, hc.B(c.Cfg.Wrap != "absent"), hc.N(keyID), hc.NList(c.Cfg.EncFail), hc.B(c.Cfg.Wrap == "failing"), payloadLit, hc.B(unchanged), hc.B(unaliased), hc.B(c.SnapOnly), obs)
+		hc.N(c.ID), hc.N(res.class), o0, o1, o2, hc.B(hasWrap), hc.N(keyID), hc.NList(encFail), hc.B(c.Cfg.Wrap == "failing" || c.Cfg.Wrap == "keyid"), payloadLit, hc.B(unchanged), hc.B(unaliased), hc.B(c.SnapOnly), obs)
 	res.nontriv = res.obs == "out" && res.outLit != res.inLit
 	return res
 }
@@ -626,8 +782,20 @@ func genHistories(e *emitter, r *hc.Rand, n int) {
 			}
 			if i > 0 && g.r.Chance(1, 5) {
 				// a rotation payload carrying only some of wrapper / salt / info: consumed, and the later events show what it installed
-				st = HistStep{Cfg: c, PK: "rotate", V: &V{K: []string{"all", "salt", "info", "wrapper", "empty"}[g.r.Intn(5)]}}
+				st = HistStep{Cfg: c, PK: "rotate", V: &V{K: []string{"all", "salt", "info", "wrapper", "empty", "typednil", "byvalue"}[g.r.Intn(7)]}}
+			} else if i > 0 && h[i-1].PK == "val" && g.r.Chance(1, 6) {
+				// the very payload object of the previous event once more
+				st = HistStep{Cfg: c, PK: "val", V: h[i-1].V, Again: true, Rot: st.Rot}
+			} else if g.r.Chance(1, 10) {
+				// an event that fails (a string by value cannot be set; wrapper info without an event id): what comes later must not notice
+				if g.r.Bool() {
+					st = HistStep{Cfg: c, PK: "val", V: &V{K: "str", C: g.can()}}
+				} else {
+					st = HistStep{Cfg: c, PK: "val", V: &V{K: "ptr", Elem: &V{K: "hand", Hand: "EWI", Fields: []Field{{Name: "EvID", Tag: sp("public"), V: &V{K: "evid", I: 0}},
+						{Name: "P", V: &V{K: "ptr", Elem: g.strct(1)}}}}}}
+				}
 			}
+			st.Cfg.Ign = g.r.Chance(1, 6)
 			h = append(h, st)
 		}
 		e.emitHistory("history", h)
@@ -667,7 +835,7 @@ func genIgnore(e *emitter, r *hc.Rand, n int) {
 }
 
 func fixRandomCase(c *Case) {
-	if c.V != nil && c.V.K == "ptr" && c.V.Elem.K == "hand" && c.V.Elem.Hand == "EWI" && c.Cfg.Wrap == "failing" {
+	if c.V != nil && c.V.K == "ptr" && c.V.Elem.K == "hand" && c.V.Elem.Hand == "EWI" && (c.Cfg.Wrap == "failing" || c.Cfg.Wrap == "keyid") {
 		c.Cfg.Wrap, c.Cfg.EncFail = "ok", nil
 	}
 }
@@ -733,9 +901,11 @@ func genSpecial(e *emitter) {
 			return &V{K: "struct", Fields: []Field{{Name: "F1", Tag: sp("secret"), V: &V{K: "str", C: g.can()}}, {Name: "F2", Tag: sp("sensitive"), V: &V{K: "str", C: g.can()}}, {Name: "F3", V: &V{K: "int", I: 3}}}}
 		}
 		e.emit(Case{Gen: "special", Cfg: cf, PK: "nil"})
-		for _, k := range []string{"all", "salt", "info", "wrapper", "empty"} {
+		for _, k := range []string{"all", "salt", "info", "wrapper", "empty", "typednil", "byvalue"} {
 			e.emit(Case{Gen: "special", Cfg: cf, PK: "rotate", V: &V{K: k}})
 		}
+		// a typed nil pointer to a payload type with wrapper info: it still implements the interface, with an empty event id
+		e.emit(Case{Gen: "special", Cfg: cf, PK: "val", V: &V{K: "nilptr", Elem: &V{K: "hand", Hand: "EWI"}}})
 		e.emit(Case{Gen: "special", Cfg: cf, PK: "val", V: &V{K: "nilptr", Elem: st()}})
 		e.emit(Case{Gen: "special", Cfg: cf, PK: "val", V: &V{K: "str", C: 0}})
 		e.emit(Case{Gen: "special", Cfg: cf, PK: "val", V: &V{K: "str", C: g.can()}})
@@ -755,6 +925,39 @@ func genSpecial(e *emitter) {
 					{Name: "P", V: &V{K: "ptr", Elem: &V{K: "struct", Fields: []Field{{Name: "F1", Tag: sp("sensitive"), V: &V{K: "str", C: g.can()}}, {Name: "F2", Tag: sp("sensitive,hmac-sha256"), V: &V{K: "bytes", C: g.can()}}}}}}}}}})
 			}
 		}
+	}
+}
+
+// wrapper failures of every class, contexts of every kind, on one payload that encrypts three times, HMACs once, redacts once and
+// holds a Taggable map (whose Tags() is the point in the middle of Process at which the "inflight" context is cancelled)
+func genFaults(e *emitter) {
+	g := &gen{r: hc.NewRand(9)}
+	pay := func(ewi bool) *V {
+		g.canary = 0
+		st := &V{K: "struct", Fields: []Field{{Name: "F1", Tag: sp("sensitive"), V: &V{K: "str", C: g.can()}}, {Name: "F2", Tag: sp("secret"), V: &V{K: "str", C: g.can()}},
+			{Name: "F3", V: tmapv([]PTag{{Ptr: "/k1", Class: "sensitive"}, {Ptr: "/k2", Class: "public"}}, "k1", str(g.can()), "k2", str(g.can()))},
+			{Name: "F4", Tag: sp("sensitive"), V: &V{K: "strs", Cs: []int{g.can(), g.can()}}}, {Name: "F5", Tag: sp("sensitive,hmac-sha256"), V: &V{K: "bytes", C: g.can()}}}}
+		if !ewi {
+			return ptr(st)
+		}
+		return ptr(&V{K: "hand", Hand: "EWI", Fields: []Field{{Name: "EvID", Tag: sp("public"), V: &V{K: "evid", I: 1}}, {Name: "Salt", Tag: sp("public"), V: &V{K: "nilbytes"}}, {Name: "Info", Tag: sp("public"), V: &V{K: "nilbytes"}}, {Name: "P", V: ptr(st)}}})
+	}
+	ctxs := []string{"", "cancelled", "deadline", "custom", "cause", "inflight"}
+	for _, cx := range ctxs {
+		for _, ewi := range []bool{false, true} {
+			e.emit(Case{Gen: "faults", Cfg: Cfg{Wrap: "ok", Ctx: cx}, PK: "val", V: pay(ewi)})
+			e.emit(Case{Gen: "faults", Cfg: Cfg{Wrap: "ok", Ctx: cx, Ov: [3]string{"", "hmac", "encrypt"}, EmptyOv: true}, PK: "val", V: pay(ewi)})
+			e.emit(Case{Gen: "faults", Cfg: Cfg{Wrap: "failing", Ctx: cx, Ov: [3]string{"", "", "redact"}}, PK: "val", V: pay(ewi)})
+			e.emit(Case{Gen: "faults", Cfg: Cfg{Wrap: "keyid", Ctx: cx, Ov: [3]string{"", "", "redact"}}, PK: "val", V: pay(ewi)})
+			e.emit(Case{Gen: "faults", Cfg: Cfg{Wrap: "absent", Ctx: cx, Ov: [3]string{"", "redact", ""}, EmptyOv: true}, PK: "val", V: pay(ewi)})
+		}
+	}
+	// every kind of error value, at every Encrypt call of the payload
+	for k := 0; k < 7; k++ {
+		for i := 0; i < 4; i++ {
+			e.emit(Case{Gen: "faults", Cfg: Cfg{Wrap: "failing", EncFail: []int{i}, ErrK: k, Ov: [3]string{"", "", "redact"}}, PK: "val", V: pay(false)})
+		}
+		e.emit(Case{Gen: "faults", Cfg: Cfg{Wrap: "keyid", ErrK: k}, PK: "val", V: pay(true)})
 	}
 }
 
@@ -865,6 +1068,7 @@ func main() {
 		case "special":
 			genSpecial(e)
 			genSeeds(e)
+			genFaults(e)
 		case "tagtable":
 			genTagTable(e, false)
 			summary["tagtable_exhaustive"] = "6 class spellings x 8 operation spellings (+ no tag, 3 odd tags) x 5^3 override tables"
